@@ -539,7 +539,7 @@ class NetworkMixin(RadioMixin):
     def _write_to_pipe(self, to_node: int, to_pipe: int, is_multicast: bool) -> bool:
         """send prepared frame to a particular node's pipe"""
         result: Union[bool, bytearray, List[Union[bool, bytearray]]] = False
-        if to_node == self._addr:
+        if to_node == self._addr and not is_multicast:
             return self.queue.enqueue(self.frame_buf)
         self._rf24.auto_ack = 0x3E + (not is_multicast)
         self.listen = False
